@@ -413,8 +413,13 @@ RowClauses1(S, A, R, n, ph, r, tol, ta, T) ==
         \o DomainRowClauses(S, R, n, ph, r, T, Cardinality(Sources(S)) > 1)
 
 \* system balance of one phase
-PhaseClauses(S, A, R, ph, tol) ==
+PhaseClauses(S, A, R, ph, tol, T) ==
   LET N    == Names(S)
+      totI == {i \in DOMAIN T.rows : T.rows[i].comp = "System total" /\ T.rows[i].phase = ph}
+      tot  == T.rows[CHOOSE i \in totI : TRUE]
+      sysTol == DInt(Cardinality(N)) \otimes TolP(DSumSet([n \in N |-> [x |-> DAbs(R[n, ph].vin) \oplus DAbs(R[n, ph].vout)]], N, "x"),
+                                                   DSumSet([n \in N |-> [x |-> R[n, ph].iin \oplus R[n, ph].iout]], N, "x"),
+                                                   DSumSet([n \in N |-> R[n, ph]], {n \in N : Kind(S, n) = "SOURCE"}, "pwr"), tol)
       ok   == \A n \in N : R[n, ph].ok
       Rp   == [n \in N |-> R[n, ph]]
       srcs == {n \in N : Kind(S, n) = "SOURCE"}
@@ -425,7 +430,10 @@ PhaseClauses(S, A, R, ph, tol) ==
   IN << Cl("C02.Energy.System", ok,
            DLeq(DAbs(psrc \ominus (pld \oplus lss)),
                 DInt(Cardinality(N)) \otimes TolP(DSumSet([n \in N |-> [x |-> DAbs(Rp[n].vin) \oplus DAbs(Rp[n].vout)]], N, "x"),
-                                                  DSumSet([n \in N |-> [x |-> Rp[n].iin \oplus Rp[n].iout]], N, "x"), psrc, tol))) >>
+                                                  DSumSet([n \in N |-> [x |-> Rp[n].iin \oplus Rp[n].iout]], N, "x"), psrc, tol))),
+        \* the same balance on the row that reports it: the System total's power is what the loads consume plus its loss
+        Cl("C02.Energy.TotalRow", ok /\ Cardinality(totI) = 1 /\ IsNum(tot.pwr) /\ IsNum(tot.loss),
+           DLeq(DAbs(DJ(tot.pwr) \ominus (pld \oplus DJ(tot.loss))), sysTol)) >>
 
 RECURSIVE FlatMap(_, _)
 FlatMap(f, s) == IF s = <<>> THEN <<>> ELSE f[Head(s)] \o FlatMap(f, Tail(s))
@@ -442,7 +450,7 @@ SolveClauses3(c, S, A, T, PL, R, tol, ta) ==
   LET pairs == SetToSeq(Names(S) \X SeqRange(PL))
   IN FlatMap([pr \in Names(S) \X SeqRange(PL) |->
                 Tag(RowClauses1(S, A, R, pr[1], pr[2], R[pr[1], pr[2]], tol, ta, T), pr[1], pr[2])], pairs)
-     \o FlatMap([ph \in SeqRange(PL) |-> Tag(PhaseClauses(S, A, R, ph, tol) \o AggClauses(S, A, R, ph, T), "", ph)],
+     \o FlatMap([ph \in SeqRange(PL) |-> Tag(PhaseClauses(S, A, R, ph, tol, T) \o AggClauses(S, A, R, ph, T), "", ph)],
                 SetToSeq(SeqRange(PL)))
      \o Tag(AvgClauses(S, A, R, PL, T), "", "")
      \o (IF c.hasrail
@@ -556,7 +564,7 @@ CaseClauses(c, S) ==
 AllClauseNames ==
   {"C01.Link.Vin", "C01.SourceVin", "C01.Link.Iout", "C01.Law.Vout", "C01.Law.Iin",
    "C02.Acct.Power", "C02.Acct.Loss", "C02.LoadExclusive", "C02.Energy.Row", "C02.LossRange", "C02.Eff",
-   "C02.Thermal.Rise", "C02.Thermal.Peak", "C02.Thermal.Shown", "C02.Energy.System",
+   "C02.Thermal.Rise", "C02.Thermal.Peak", "C02.Thermal.Shown", "C02.Energy.System", "C02.Energy.TotalRow",
    "C03.Finite", "C03.PassiveNoGain", "C03.SourceNoGain", "C03.ExcClass",
    "C04.DeadRowZero", "C04.SleepCurrent", "C04.SleepPower",
    "C05.Vin", "C05.Vout", "C05.Iin", "C05.AllDead", "C05.Parent", "C05.RailIn", "C05.Domain",
